@@ -28,6 +28,8 @@ from pathlib import Path
 FILES = ["_delb/xpath/__init__.py", "_delb/xpath/ast.py", "_delb/xpath/functions.py", "_delb/xpath/parser.py",
          "_delb/xpath/tokenizer.py"]
 AST_FILE = "_delb/xpath/ast.py"
+# the functions through which the memoised values (token lists, expression trees) flow on every parse
+PIPELINE_FILES = ["_delb/xpath/parser.py", "_delb/xpath/tokenizer.py"]
 
 MUTATORS = {"append", "extend", "insert", "pop", "remove", "clear", "update", "add", "discard", "setdefault", "sort",
             "reverse", "popitem", "appendleft", "popleft", "extendleft", "__setitem__", "__delitem__", "__setattr__",
@@ -128,6 +130,7 @@ class Mutations(ast.NodeVisitor):
 def generate(repo: Path) -> str:
     cached = []
     methods = []
+    pipeline = []
     for rel in FILES:
         path = repo / rel
         if not path.exists():
@@ -147,6 +150,8 @@ def generate(repo: Path) -> str:
                         size = cache_size(d)
                         if size is not None:
                             cached.append((rel, q, size, len(m.params), m.self_mut + m.foreign_mut))
+                    if rel in PIPELINE_FILES:
+                        pipeline.append((rel.rsplit("/", 1)[1] + ":" + q, n.name in CONSTRUCTORS and in_class, "cached_property" in decos, m.self_mut, m.foreign_mut))
                     if rel == AST_FILE:  # methods, module-level functions and nested functions (decorator wrappers) alike
                         methods.append((q, n.name in CONSTRUCTORS, "cached_property" in decos, m.self_mut, m.foreign_mut))
                     walk(n.body, q + ".<locals>.", False)
@@ -164,6 +169,11 @@ def generate(repo: Path) -> str:
             "  selfMutations : Nat", "  foreignMutations : Nat", "deriving Repr, DecidableEq", "",
             "def astMethods : List AstMethod := ["]
     out += ["  ⟨%s, %s, %s, %d, %d⟩," % (lean_str(q), str(c).lower(), str(cp).lower(), sm, fm) for q, c, cp, sm, fm in methods]
+    out += ["]", "",
+            "/-- every function of `_delb/xpath/parser.py` and `tokenizer.py`: the memoised token lists and expressions pass",
+            "    through them on every parse (seeded C14-7: a parser pass that nests the cached token list in place) -/",
+            "def pipelineFunctions : List AstMethod := ["]
+    out += ["  ⟨%s, %s, %s, %d, %d⟩," % (lean_str(q), str(c).lower(), str(cp).lower(), sm, fm) for q, c, cp, sm, fm in pipeline]
     out += ["]", "", "end Delb.Gen", ""]
     return "\n".join(out)
 
